@@ -62,3 +62,16 @@ Proof.
   intros Hwf Hgo Hall. unfold run_once_p. destruct (prelude ds) as [rb|] eqn:Ep; [|congruence].
   apply (run_once_passes check (after_prelude ds s) (wf_groups_after ds s Hwf)). apply Hall.
 Qed.
+
+(* the main loop: no run follows a run that returned an error *)
+Lemma run_forever_prefix_ok ticks : Forall (fun r => snd r = OutOk) (removelast (run_forever ticks)).
+Proof.
+  induction ticks as [|[ds s] rest IH]; [constructor|]. cbn [run_forever].
+  destruct (snd (run_once_p ds s)) eqn:E; try (constructor).
+  destruct (run_forever rest) as [|r' l] eqn:Er; [constructor|].
+  change (removelast (run_once_p ds s :: r' :: l)) with (run_once_p ds s :: removelast (r' :: l)).
+  constructor; [exact E | exact IH].
+Qed.
+
+Lemma run_forever_length ticks : (length (run_forever ticks) <= length ticks)%nat.
+Proof. induction ticks as [|[ds s] rest IH]; [simpl; lia|]. cbn [run_forever]. destruct (snd (run_once_p ds s)); simpl; lia. Qed.
